@@ -42,6 +42,8 @@ KEYS = tuple(FLOORS["quick"].keys()) + ("unusual_config_runs", "sink_long_hole_s
 # floors for the situations added with the later rounds of seeded changes (evidence that they were really exercised)
 FLOORS["quick"].update({'slow_path_runs': 16})
 FLOORS["thorough"].update({'slow_path_runs': 100})
+FLOORS["quick"].update({'large_flow_id_or_rational_rtt_runs': 24})
+FLOORS["thorough"].update({'large_flow_id_or_rational_rtt_runs': 200})
 MSS = 512
 
 
